@@ -282,7 +282,7 @@ class C03(Check):
             if i < n and rng.random() < .3 and zoo.json_safe(spec, req):
                 req['json'] = True
                 stats['json'] = stats.get('json', 0) + 1
-            if i < n and i % 400 == 7:
+            if i < n and i % 400 == 7 and stats.get('hangs', 0) < 2:
                 # the loop bound: an error handler that keeps answering with the same error
                 code = rng.choice([500, 404, 418])
                 loop = ('r', True, dict(status=code, headers=[], cookies=[]), ('t', 'again'))
@@ -290,7 +290,7 @@ class C03(Check):
                 req['route'] = ('h', [], ('ret', loop))
                 stats['loops1000'] += 1
             try:
-                obs = zoo.watchdog(lambda: run_real(spec, req), 20)
+                obs = zoo.watchdog(lambda: run_real(spec, req), 6)
                 ans = answer(obs)
             except zoo.HangB:
                 obs = dict(urlrepr=zoo.url_repr(zoo.make_environ(req, []), req), starts=[], shape='hang', log=[])
@@ -469,6 +469,15 @@ class C03(Check):
             return False
         if not all(WELLFORMED_STATUS.fullmatch(x) for x in status_strings(spec, req)):
             return False
+        all_effs = [e for effs, _ in spec['before'] + spec['after'] for e in effs]
+        if any(zoo._eff_may_fail(e) for e in all_effs):
+            return False          # the oracle reads "hook fails" off its outcome
+        if req['route'][0] == 'h':
+            all_effs = all_effs + list(req['route'][1])
+        if any(e[0] in ('sh', 'ah', 'bh') and e[1].lower() == 'content-length' for e in all_effs):
+            return False          # a Content-Length in the response is then not the framework's
+        if self._sets_cl(spec, req):
+            return False
 
         def ok_out(o):
             if o[0] == 'r':
@@ -498,10 +507,31 @@ class C03(Check):
             outs.append(req['route'][2][1])
         return all(ok_out(o) for o in outs)
 
+    @staticmethod
+    def _sets_cl(spec, req):
+        """does a response object of the program carry its own Content-Length?"""
+        def from_out(o):
+            if o[0] == 'r':
+                return any(k.lower() == 'content-length' for k, _ in o[2].get('headers', [])) or from_out(o[3])
+            if o[0] == 'it':
+                return any(i[0] in ('y', 'rr') and from_out(i[1]) for i in o[3])
+            return False
+        outs = [res[1] for _, res in spec['before'] + spec['after'] if len(res) > 1]
+        outs += [eh[1] for _, eh in spec['errh'] if eh[0] == 'c']
+        if req['route'][0] == 'h' and len(req['route'][2]) > 1:
+            outs.append(req['route'][2][1])
+        return any(from_out(o) for o in outs)
+
     def replay(self, data):
         spec, req = dec_case(data['input'])
-        obs = run_real(spec, req, validate=True)
-        return dict(input=data['input'], oracle=self._oracle(spec, req),
-                    observed=dict(events=obs['log'], start_response=[(s, h, x) for s, h, x in obs['starts']],
-                                  body=obs['data'].hex(), shape=obs['shape'], complaints=obs['complaints'],
-                                  escaped=obs['escaped']))
+        try:
+            verdict = zoo.watchdog(lambda: self._oracle(spec, req), 20)
+            obs = zoo.watchdog(lambda: run_real(spec, req, validate=True), 20)
+        except zoo.HangB:
+            return dict(oracle=[['hang', 'request did not finish within 20 s']], violates=True, input=data['input'])
+        return dict(oracle=verdict, violates=bool(verdict),
+                    observed=dict(events=list(obs['log']),
+                                  start_response=[(s, h, x) for s, h, x in obs['starts']],
+                                  body_bytes=len(obs['data']), body_head=obs['data'][:80].hex(), shape=obs['shape'],
+                                  complaints=obs['complaints'], escaped=obs['escaped']),
+                    input=data['input'])
